@@ -32,13 +32,14 @@ var (
 	c17Wraps = []string{"", "li", "span"}
 	c17Cur   = []string{"plain", "b", "strong", "span", "paren"}
 	c17Href  = []string{"abs", "rootrel"}
+	c17Deco  = []string{"", "[]", "()", "[ ]"}
 )
 
 func c17Article(t *ora.Tok) string {
 	return "<div class=\"article\"><p>" + t.W(22) + "</p><p>" + t.W(25) + "</p><p>" + t.W(21) + "</p></div>"
 }
 
-func c17Pager(fam pagerFam, n, k int, sep, wrap, cur, href string) string {
+func c17Pager(fam pagerFam, n, k int, sep, wrap, cur, href, deco string) string {
 	var items []string
 	for i := 1; i <= n; i++ {
 		var it string
@@ -60,7 +61,16 @@ func c17Pager(fam pagerFam, n, k int, sep, wrap, cur, href string) string {
 			if href == "rootrel" {
 				h = strings.TrimPrefix(h, "http://example.com")
 			}
-			it = fmt.Sprintf("<a href=\"%s\">%d</a>", strings.ReplaceAll(h, "&", "&amp;"), i)
+			label := fmt.Sprint(i)
+			switch deco {
+			case "[]":
+				label = "[" + label + "]"
+			case "()":
+				label = "(" + label + ")"
+			case "[ ]":
+				label = "[ " + label + " ]"
+			}
+			it = fmt.Sprintf("<a href=\"%s\">%s</a>", strings.ReplaceAll(h, "&", "&amp;"), label)
 		}
 		if wrap != "" {
 			it = "<" + wrap + ">" + it + "</" + wrap + ">"
@@ -81,7 +91,7 @@ func c17Doc(c *eng.Case) {
 	fmt.Sscanf(c.P["fam"], "%d", &fi)
 	fam := c17Fams[fi]
 	t := &ora.Tok{}
-	pager := c17Pager(fam, n, k, c.P["sep"], c.P["wrap"], c.P["cur"], c.P["href"])
+	pager := c17Pager(fam, n, k, c.P["sep"], c.P["wrap"], c.P["cur"], c.P["href"], c.P["deco"])
 	if c.Algo == 0 { // PrevNext: labelled anchors
 		var pn []string
 		if k > 1 {
@@ -120,27 +130,29 @@ func c17Enumerate(tier string, emit func(*eng.Case)) {
 					for _, wrap := range c17Wraps {
 						for _, cur := range c17Cur {
 							for _, href := range c17Href {
-								for _, pos := range []string{"after", "before"} {
-									for _, slash := range []string{"0", "1"} {
-										if slash == "1" && !isPath {
-											continue
-										}
-										if tier != "thorough" {
-											// quick: all (fam,n,k) with each markup dimension varied one or two at a time
-											dev := 0
-											for _, b := range []bool{sep != " ", wrap != "", cur != "plain", href != "abs", pos != "after", slash != "0"} {
-												if b {
-													dev++
-												}
-											}
-											if dev > 1 {
+								for _, deco := range c17Deco {
+									for _, pos := range []string{"after", "before"} {
+										for _, slash := range []string{"0", "1"} {
+											if slash == "1" && !isPath {
 												continue
 											}
+											if tier != "thorough" {
+												// quick: all (fam,n,k) with each markup dimension varied one or two at a time
+												dev := 0
+												for _, b := range []bool{sep != " ", wrap != "", cur != "plain", href != "abs", pos != "after", slash != "0", deco != ""} {
+													if b {
+														dev++
+													}
+												}
+												if dev > 1 {
+													continue
+												}
+											}
+											c := &eng.Case{Kind: "pagenumber", Algo: 1, P: map[string]string{
+												"n": fmt.Sprint(n), "k": fmt.Sprint(k), "fam": fmt.Sprint(fi), "sep": sep, "wrap": wrap, "cur": cur, "href": href, "pos": pos, "slash": slash, "deco": deco}}
+											c17Doc(c)
+											emit(c)
 										}
-										c := &eng.Case{Kind: "pagenumber", Algo: 1, P: map[string]string{
-											"n": fmt.Sprint(n), "k": fmt.Sprint(k), "fam": fmt.Sprint(fi), "sep": sep, "wrap": wrap, "cur": cur, "href": href, "pos": pos, "slash": slash}}
-										c17Doc(c)
-										emit(c)
 									}
 								}
 							}
@@ -197,7 +209,7 @@ func c17Check(c *eng.Case) *eng.Outcome {
 	gotNext, gotPrev := res.PaginationInfo.NextPage, res.PaginationInfo.PrevPage
 	o.Nontrivial = k > 1 && k < n
 	o.Class = fmt.Sprintf("%s next=%v prev=%v", c.Kind, gotNext != "", gotPrev != "")
-	markup := fmt.Sprintf("sep=%q,wrap=%s,cur=%s,href=%s,pos=%s,slash=%s", c.P["sep"], c.P["wrap"], c.P["cur"], c.P["href"], c.P["pos"], c.P["slash"])
+	markup := fmt.Sprintf("sep=%q,wrap=%s,cur=%s,href=%s,pos=%s,slash=%s,deco=%s", c.P["sep"], c.P["wrap"], c.P["cur"], c.P["href"], c.P["pos"], c.P["slash"], c.P["deco"])
 	if c.Kind == "pagenumber" {
 		if normPageURL(gotNext) != wantNext {
 			o.V(fmt.Sprintf("pagenumber-next/%s/%s", fam.name, markup), "N=%d k=%d: NextPage=%q want %q (page URL %s)", n, k, gotNext, wantNext, c.URL)
@@ -221,7 +233,7 @@ func init() {
 	eng.Register(&eng.Prop{
 		ID:        "C17",
 		DesignRef: "§5 C17",
-		Rule: "every (N in 2..12, k in 1..N) x 8 URL families x pager markups (separator incl. ones glued to the numbers, wrapper, current-page decoration, absolute/root-relative hrefs, pager before/after article, trailing slash on path families) for PageNumber; " +
+		Rule: "every (N in 2..12, k in 1..N) x 8 URL families x pager markups (separator incl. ones glued to the numbers, wrapper, current-page decoration, absolute/root-relative hrefs, bracketed link labels [i] (i) [ i ], pager before/after article, trailing slash on path families) for PageNumber; " +
 			"x {Prev,Previous} x 3 placements of the labelled anchors for PrevNext; quick varies at most one markup dimension at a time, thorough takes the full product. Oracle: next = link(k+1), prev = link(k-1). " +
 			"Non-trivial = inner pages (1<k<N), where both links are demanded.",
 		Enumerate: c17Enumerate,
